@@ -172,7 +172,7 @@ pub fn profile(prop: &str) -> Profile {
             p.w[W_TRUNC] = 10;
             p.w[W_SETMIN] = 2;
             p.w[W_REOPEN] = 1;
-            p.reopen_modes = 0b1101;
+            p.reopen_modes = 0b1111;
             p.owned_pct = 0;
         }
         "C20" => {
